@@ -19,6 +19,8 @@ use std::sync::Arc;
 
 #[path = "c02sched.rs"]
 mod sched;
+#[path = "c02conn.rs"]
+mod conn;
 
 /// how long all clients of one sampled case may take (normally milliseconds)
 const CASE_DEADLINE: std::time::Duration = std::time::Duration::from_secs(45);
@@ -1089,6 +1091,14 @@ pub fn run(a: &Args) {
         }
         // multi-call scripts on two keys of one shard: the whole script is one atomic step
         guarded!("transfer", transfer_case(&mut out, &mut Rng::new(0x5C21), fixed, true));
+        // through the REAL connection handler (fast path, batch collectors, generic path): six fixed plans
+        for i in 0..6usize {
+            guarded!("conn", conn::conn_case(&mut out, &mut Rng::new(0xC0AA + i as u64), fixed, Some(i)));
+        }
+        // the script cache (node-global) across SCRIPT FLUSH, every shard
+        for i in 0..3usize {
+            guarded!("script-cache", conn::script_cache_case(&mut out, &mut Rng::new(0x5CF + i as u64), fixed, Some(i)));
+        }
         // cancellations: the fixed case first, then a few random ones
         guarded!("cancel", cancel_case(&mut out, &mut Rng::new(0xC02), fixed, true));
         for i in 0..a.n {
@@ -1101,6 +1111,12 @@ pub fn run(a: &Args) {
             if i % 400 == 7 {
                 guarded!("transfer", transfer_case(&mut out, &mut r, fixed, false));
             }
+            if i % 10 == 1 {
+                guarded!("conn", conn::conn_case(&mut out, &mut r, fixed, None));
+            }
+            if i % 14 == 5 {
+                guarded!("script-cache", conn::script_cache_case(&mut out, &mut r, fixed, None));
+            }
             if i % 8 == 3 {
                 let c = timed_random(&mut r);
                 guarded!("timed", run_timed_case(&mut out, c));
@@ -1109,17 +1125,17 @@ pub fn run(a: &Args) {
     });
     drop(rt);
     out.extra.insert("audit".into(), serde_json::from_str(r####"{
- "1 entry paths": "CLOSED: every ShardMessage kind that carries a client request is in the concurrent mix (generic incl. EVAL/EVALSHA, fast, pooled, batch get/set) — see C03 api_coverage; EvictExpired is not a client operation (no history event); session 4: the entry path is a quantifier of the M7-level theorem (linearizable_node_entry_paths: ReqV.via cls now c for every frame class of Shards.dispatch)",
+ "1 entry paths": "CLOSED: every ShardMessage kind that carries a client request is in the concurrent mix (generic incl. EVAL/EVALSHA, fast, pooled, batch get/set) — see C03 api_coverage; EvictExpired is not a client operation (no history event); session 4: the entry path is a quantifier of the M7-level theorem (linearizable_node_entry_paths: ReqV.via cls now c for every frame class of Shards.dispatch); round 2: the paths are driven through the REAL connection handler (hook H1; classes conn / conn-order: 2..4 concurrent connections, pipelines below / at / above batch_threshold and min_pipeline_buffer, long SET runs, mixed runs, P = 1) since fix de38a13 made the fast path and the batch collectors live",
  "2 input alphabet": "CLOSED: keys from C03's structured alphabet; values incl. integers / non-integers for INCR; OPEN: only string commands in histories (other types: C01)",
  "3 comparisons at equality": "CLOSED: reads invoked just before / at / just past / far past a deadline",
  "4 configuration": "CLOSED: 1,2,4,8,16 shards; response pool capacity 1..256 / prewarm 0..capacity in the cancellation histories; 2..8 clients",
  "5 capacity thresholds": "CLOSED: more pooled acquisitions than the pool holds, during and after a stall; pool of capacity 1",
  "6 fault kinds": "CLOSED: request futures dropped while queued (the only await point of the pooled / oneshot paths is the response wait; send is synchronous); OPEN: shard actor panic / channel closure ('ERR shard unavailable') not injected",
  "7 history shapes": "CLOSED: overlapping ops on one key, sequential corpora per path pair, batched calls, generic fan-outs racing single-key ops, abandoned (pending) operations, timed phases; CLOSED (session 4): the clock advancing WHILE requests are in flight — timed enumerated schedules (c02sched.rs run_timed: three requests invoked at deadline-5 / deadline / deadline+5 in every interleaving, pooled / generic / batched / fast reads and a write, optionally the clock running far past the deadline while everything is still queued: the stamp of a message, not the time the shard gets to it, decides what it sees); OPEN: inverted stamps inside one mailbox (a client that reads the clock, is descheduled, and enqueues after a later-stamped request) cannot be produced through the public entry points on one thread",
- "8 node-global state": "CLOSED: script introduced by EVAL on one shard, EVALSHA elsewhere; multi-call scripts (session 3): XINCR = GET/+1/SET script judged as an increment in the counter histories, two-key transfer/sum scripts racing plain commands (oracle C02:script-not-atomic:transfer); model: Redis.Prog / linearizable_m7_single_store",
+ "8 node-global state": "CLOSED: script introduced by EVAL on one shard, EVALSHA elsewhere; round 2: the script cache ACROSS SCRIPT FLUSH as a register per script (class script-cache: every shard uses a script by EVALSHA / EVAL before a flush and again after it; concurrent EVAL / LOAD / EVALSHA / EXISTS phases, lone flushes); multi-call scripts (session 3): XINCR = GET/+1/SET script judged as an increment in the counter histories, two-key transfer/sum scripts racing plain commands (oracle C02:script-not-atomic:transfer); model: Redis.Prog / linearizable_m7_single_store",
  "9 observations": "CLOSED: every reply (verified WGL + Rust checker), direct reply-matches-request oracle in cancellation histories; fan-outs: every ITEM of MGET/MSET is a single-key op inside the call's interval, every key of multi-key DEL / FLUSHALL is a delete without observable reply (pending op); OPEN: DBSIZE / KEYS / SCAN / RANDOMKEY replies under concurrency are NOT judged (no atomic-snapshot claim is made for fan-outs: C02 is per key)",
  "10 finding absorption": "no listed finding for C02",
  "11 harness fragility": "CLOSED: verified checker made just-in-time (no exponential blow-up on non-linearizable histories); CLOSED (session 4): no wait is unbounded — a sampled case whose clients have not all finished after 45 s (a lost wake-up: found by self-test N2, a pooled slot released before the reply is awaited, which made the harness hang) is reported as C02:request-never-answered with the clients' programs and the run goes on; the enumerated schedules run FIRST and bound every poll; CLOSED (session 4): ENUMERATED schedules (c02sched.rs) — on a current-thread runtime the request futures are polled by hand, Invoke / Run / Take / Drop = the steps of Model/Actors; all 90 interleavings of 3 operations x at most one abandoned request (before / after the shard ran) x lazy / eager runs for 8 templates over pooled / fast / generic / batch / script paths, pool capacity 1 and 2, on every run (deterministic); OPEN: the multi-thread histories (more clients, longer programs) remain sampled; the enumeration covers 3 (thorough: 4) operations"
 }"####).unwrap());
-    out.finish("case = one concurrent history: 2..8 client tasks (multi-thread tokio runtime, seeded random yields) issue 6..12 single-key string commands per key over 1..3 keys through execute (plain commands and the same commands as Lua scripts via EVAL and via SCRIPT LOAD + EVALSHA) / fast_* / pooled_fast_* / fast_batch_get_pipeline / fast_batch_set_pipeline (batches of 1..4 keys, every item one single-key operation with the call's interval) of a real ShardedActorState with 1, 2, 4, 8 or 16 shards; invocation/response stamped by a global atomic counter. Schedules are SAMPLED (the seed fixes programs and yield patterns, not the interleaving). plus ENUMERATED schedules (class sched: 3-operation templates, every interleaving of invocations and completions x at most one abandoned request x lazy / eager shard runs, request futures polled by hand on a current-thread runtime; 4-operation templates sampled, enumerated in the thorough tier). plus TIMED histories (a key gets a PX / EX deadline; the simulated clock is advanced by hand between phases to just before / at / just past / far past it, with no traffic, traffic to another shard or traffic to the key's own shard in between; then 2..4 clients read the key concurrently through generic GET/EXISTS/MGET, fast, pooled, batched and script (EVAL, EVALSHA) paths, optionally racing a writer; both checkers use a sequential specification with a clock: an operation invoked at virtual time t sees a key iff t < deadline; pattern distribution under timed:*); plus cancellation histories (a slow script keeps one shard busy, pooled requests to it are abandoned by a timeout while queued and stay pending, then 4..8 single-writer clients run > pool-size pooled SET/GET rounds during and after the stall; every reply is also checked directly against its request). distinct by the stamped history text; non-trivial iff two operations on one key overlap in real time and the key is written, or an operation was abandoned");
+    out.finish("case = one concurrent history: 2..8 client tasks (multi-thread tokio runtime, seeded random yields) issue 6..12 single-key string commands per key over 1..3 keys through execute (plain commands and the same commands as Lua scripts via EVAL and via SCRIPT LOAD + EVALSHA) / fast_* / pooled_fast_* / fast_batch_get_pipeline / fast_batch_set_pipeline (batches of 1..4 keys, every item one single-key operation with the call's interval) of a real ShardedActorState with 1, 2, 4, 8 or 16 shards; invocation/response stamped by a global atomic counter. Schedules are SAMPLED (the seed fixes programs and yield patterns, not the interleaving). plus ENUMERATED schedules (class sched: 3-operation templates, every interleaving of invocations and completions x at most one abandoned request x lazy / eager shard runs, request futures polled by hand on a current-thread runtime; 4-operation templates sampled, enumerated in the thorough tier). plus TIMED histories (a key gets a PX / EX deadline; the simulated clock is advanced by hand between phases to just before / at / just past / far past it, with no traffic, traffic to another shard or traffic to the key's own shard in between; then 2..4 clients read the key concurrently through generic GET/EXISTS/MGET, fast, pooled, batched and script (EVAL, EVALSHA) paths, optionally racing a writer; both checkers use a sequential specification with a clock: an operation invoked at virtual time t sees a key iff t < deadline; pattern distribution under timed:*); plus CONNECTION histories (class conn / conn-order: 2..4 client tasks, each on its own in-memory duplex connection through the real OptimizedConnectionHandler — hook H1 — to one shared ShardedActorState under a generated batching configuration; rounds = pipelines of plain GET / SET runs around batch_threshold, long SET runs, single frames, mixed commands; shared keys judged with real-time stamps, private keys as sequential histories in send order) plus SCRIPT-CACHE histories (class script-cache: one register per script, EVAL / LOAD = write 1, SCRIPT FLUSH = write 0, EVALSHA / EXISTS = read; keys on every shard) plus cancellation histories (a slow script keeps one shard busy, pooled requests to it are abandoned by a timeout while queued and stay pending, then 4..8 single-writer clients run > pool-size pooled SET/GET rounds during and after the stall; every reply is also checked directly against its request). distinct by the stamped history text; non-trivial iff two operations on one key overlap in real time and the key is written, or an operation was abandoned");
 }
